@@ -161,6 +161,8 @@ func encTy(t px.Type, depth int) Ty {
 		return Sens(encTy(t.ContainedType(), depth))
 	case *types.IterableType:
 		return Iter(encTy(t.ElementType(), depth))
+	case *types.IteratorType:
+		return Itr(encTy(t.ElementType(), depth))
 	case *types.TypeAliasType:
 		switch t.Name() {
 		case "Data":
